@@ -2,7 +2,8 @@
 Inductive facts are given as base + step; the induction principle over the naturals is the (standard) meta-rule."""
 from pyvc.dsl import contract as _contract
 
-SUB = ['sem_nth', 'sem_attrs', 'sem_ids', 'sem_classes', 'sem_range', 'sem_tag', 'sem_rel', 'sem_empty', 'sem_root']
+SUB = ['sem_nth', 'sem_attrs', 'sem_ids', 'sem_classes', 'sem_range', 'sem_tag', 'sem_rel', 'sem_empty', 'sem_root', 'sem_lang', 'sem_dir', 'sem_indeterminate',
+       'sem_default', 'sem_contains', 'sem_defined', 'sem_placeholder']
 
 
 def contract(qual, **kw):
